@@ -18,7 +18,10 @@ use tokio::io::{AsyncRead, AsyncWrite, ReadBuf};
 // ---------------------------------------------------------------------------------------------
 // I/O error kinds used by fault injection
 
-pub const KINDS: [io::ErrorKind; 8] = [
+pub const KINDS: [io::ErrorKind; 9] = [
+    // an *error* of kind UnexpectedEof (as opposed to a clean close, F4): must surface as an I/O
+    // error of that kind (which is_eof() then also recognises)
+    io::ErrorKind::UnexpectedEof,
     io::ErrorKind::ConnectionReset,
     io::ErrorKind::ConnectionAborted,
     io::ErrorKind::BrokenPipe,
@@ -286,6 +289,11 @@ impl Core {
 // ---------------------------------------------------------------------------------------------
 // SimReader
 
+thread_local! {
+    /// reader fill style of the case being run (see `Case::reader_style`)
+    pub static READER_STYLE: std::cell::Cell<u8> = const { std::cell::Cell::new(0) };
+}
+
 pub struct SimReader {
     core: CoreRef,
     pub data: Rc<Vec<u8>>,
@@ -300,6 +308,7 @@ pub struct SimReader {
     pub record_offers: bool,
     /// chunk size once the script is exhausted (0 = everything that is left)
     pub tail: usize,
+    style: u8,
 }
 
 /// Raised (as a panic payload) when a decoder keeps reading after EOF was served many times.
@@ -318,6 +327,7 @@ impl SimReader {
             offers: Vec::new(),
             record_offers: false,
             tail: 0,
+            style: READER_STYLE.with(|s| s.get()),
         }
     }
 
@@ -391,7 +401,20 @@ impl AsyncRead for SimReader {
                         n = n.min(f.0 - pos);
                     }
                 }
-                buf.put_slice(&this.data[pos..pos + n]);
+                match this.style {
+                    1 => {
+                        // zero-initialise everything that is offered, then fill a prefix of it
+                        let dst = buf.initialize_unfilled();
+                        dst[..n].copy_from_slice(&this.data[pos..pos + n]);
+                        buf.advance(n);
+                    }
+                    2 => {
+                        let dst = buf.initialize_unfilled_to(n);
+                        dst.copy_from_slice(&this.data[pos..pos + n]);
+                        buf.advance(n);
+                    }
+                    _ => buf.put_slice(&this.data[pos..pos + n]),
+                }
                 this.pos += n;
                 if n < cap.min(left) {
                     core.stats.short_read += 1;
